@@ -3,13 +3,51 @@
 //!        driver), impl.txt (what the implementation answered), meta.json (coverage statistics)
 //!   lvharness eval <opsfile>                        answer each op line of a file (replay / bisection)
 //!   lvharness expand <opsfile>                      expand digest ops into their individual cases
+mod c01;
+mod c02;
+mod c03;
+mod c04;
+mod c05;
+mod c06;
+mod c07;
+mod c08;
+mod c09;
+mod c10;
+mod c11;
+mod c12;
+mod c13;
+mod c14;
+mod c15;
 mod c16;
+mod c17;
+mod c18;
+mod c19;
+mod c20;
 mod util;
 
 fn eval(op: &str) -> String {
     let suite = op.split_whitespace().next().unwrap_or("");
     match suite {
+        "C01" => c01::eval(op),
+        "C02" => c02::eval(op),
+        "C03" => c03::eval(op),
+        "C04" => c04::eval(op),
+        "C05" => c05::eval(op),
+        "C06" => c06::eval(op),
+        "C07" => c07::eval(op),
+        "C08" => c08::eval(op),
+        "C09" => c09::eval(op),
+        "C10" => c10::eval(op),
+        "C11" => c11::eval(op),
+        "C12" => c12::eval(op),
+        "C13" => c13::eval(op),
+        "C14" => c14::eval(op),
+        "C15" => c15::eval(op),
         "C16" => c16::eval(op),
+        "C17" => c17::eval(op),
+        "C18" => c18::eval(op),
+        "C19" => c19::eval(op),
+        "C20" => c20::eval(op),
         _ => "bad-op".into(),
     }
 }
@@ -17,7 +55,26 @@ fn eval(op: &str) -> String {
 fn expand(op: &str) -> Vec<String> {
     let suite = op.split_whitespace().next().unwrap_or("");
     match suite {
+        "C01" => c01::expand(op),
+        "C02" => c02::expand(op),
+        "C03" => c03::expand(op),
+        "C04" => c04::expand(op),
+        "C05" => c05::expand(op),
+        "C06" => c06::expand(op),
+        "C07" => c07::expand(op),
+        "C08" => c08::expand(op),
+        "C09" => c09::expand(op),
+        "C10" => c10::expand(op),
+        "C11" => c11::expand(op),
+        "C12" => c12::expand(op),
+        "C13" => c13::expand(op),
+        "C14" => c14::expand(op),
+        "C15" => c15::expand(op),
         "C16" => c16::expand(op),
+        "C17" => c17::expand(op),
+        "C18" => c18::expand(op),
+        "C19" => c19::expand(op),
+        "C20" => c20::expand(op),
         _ => vec![],
     }
 }
@@ -29,7 +86,26 @@ fn main() {
         Some("gen") if a.len() >= 6 => {
             let (suite, tier, seed, dir) = (a[2].as_str(), a[3].as_str(), a[4].parse::<u64>().unwrap_or(0), a[5].as_str());
             match suite {
+                "C01" => c01::run(tier, seed, dir),
+                "C02" => c02::run(tier, seed, dir),
+                "C03" => c03::run(tier, seed, dir),
+                "C04" => c04::run(tier, seed, dir),
+                "C05" => c05::run(tier, seed, dir),
+                "C06" => c06::run(tier, seed, dir),
+                "C07" => c07::run(tier, seed, dir),
+                "C08" => c08::run(tier, seed, dir),
+                "C09" => c09::run(tier, seed, dir),
+                "C10" => c10::run(tier, seed, dir),
+                "C11" => c11::run(tier, seed, dir),
+                "C12" => c12::run(tier, seed, dir),
+                "C13" => c13::run(tier, seed, dir),
+                "C14" => c14::run(tier, seed, dir),
+                "C15" => c15::run(tier, seed, dir),
                 "C16" => c16::run(tier, seed, dir),
+                "C17" => c17::run(tier, seed, dir),
+                "C18" => c18::run(tier, seed, dir),
+                "C19" => c19::run(tier, seed, dir),
+                "C20" => c20::run(tier, seed, dir),
                 _ => {
                     eprintln!("unknown suite {}", suite);
                     std::process::exit(64);
